@@ -35,6 +35,14 @@ pub enum Act {
     NewHex(String),
     NewBits(Vec<bool>),
     NewInt(i64, usize, bool),
+    /// a buffer of this many bytes of a fixed pattern (sizes around block sizes, without kilobytes of
+    /// hex in the case file)
+    NewPattern(usize),
+    /// the sub-range that leaves out this many bits at the front and at the back
+    Trim(usize, usize, usize),
+    /// compare with a twin built afresh at the same bit phase that differs in one bit, this far
+    /// from the end (0 = no difference)
+    EqNear(usize, usize),
     Clone(usize),
     Drop(usize),
     Read(usize, usize),
@@ -201,6 +209,59 @@ fn run(case: &Case, st: &mut Stats) -> Outcome {
                 if n < CAP {
                     let g = p.new_group(b.len() * 8, b.iter().all(|x| *x == 0xff) && !b.is_empty());
                     p.h.push(Handle { bs: Bitstr::from(b.clone()), model: bits_of_bytes(b), group: g });
+                }
+            }
+            Act::NewPattern(nbytes) => {
+                if n < CAP {
+                    let b: Vec<u8> = (0..*nbytes).map(|i| ((i * 37 + 11) % 253) as u8 | if i % 7 == 0 { 0x81 } else { 0 }).collect();
+                    let g = p.new_group(b.len() * 8, false);
+                    st.count("probe.large_pattern_buffer");
+                    p.h.push(Handle { bs: Bitstr::from(b.clone()), model: bits_of_bytes(&b), group: g });
+                }
+            }
+            Act::Trim(i, front, back) => {
+                if n > 0 && n < CAP {
+                    let i = i % n;
+                    let len = p.h[i].model.len();
+                    if front + back <= len {
+                        let s0 = p.h[i].bs.start();
+                        let (a, b) = (*front, len - *back);
+                        let r = p.h[i].bs.substr(s0 + a, s0 + b).ok_or_else(|| mismatch("substr", "result", "None".into(), format!("{}..{}", a, b)))?;
+                        let m: Vec<bool> = p.h[i].model[a..b].to_vec();
+                        if read_bits(&r) != m {
+                            return Err(mismatch("substr", "bits", "(long)".into(), "(long)".into()));
+                        }
+                        let g = p.h[i].group;
+                        p.h.push(Handle { bs: r, model: m, group: g });
+                    }
+                }
+            }
+            Act::EqNear(i, from_end) => {
+                if n > 0 {
+                    let i = i % n;
+                    let m = p.h[i].model.clone();
+                    let phase = p.h[i].bs.start() % 8;
+                    let mut twin_bits: Vec<bool> = vec![true; phase];
+                    twin_bits.extend(m.iter().cloned());
+                    let flipped = *from_end > 0 && *from_end <= m.len();
+                    if flipped {
+                        let k = phase + m.len() - *from_end;
+                        twin_bits[k] = !twin_bits[k];
+                    }
+                    // pad to whole bytes with ones (stale bits after the end)
+                    while twin_bits.len() % 8 != 0 {
+                        twin_bits.push(true);
+                    }
+                    let bytes: Vec<u8> = twin_bits.chunks(8).map(|c| c.iter().fold(0u8, |a, b| (a << 1) | *b as u8)).collect();
+                    let whole = Bitstr::from(bytes);
+                    if let Some(twin) = whole.substr(phase, phase + m.len()) {
+                        let eq = p.h[i].bs.eq_with(&twin);
+                        let eq2 = twin.eq_with(&p.h[i].bs);
+                        if eq != !flipped || eq2 != !flipped {
+                            return Err(mismatch("eq", "near", format!("{} / {}", eq, eq2), format!("{} (twin differs {} bits from the end of {} bits at phase {})", !flipped, from_end, m.len(), phase)));
+                        }
+                        st.count("probe.eq_against_near_twin");
+                    }
                 }
             }
             Act::NewStatic(i) => {
@@ -538,6 +599,17 @@ impl Engine for Bitshare {
         for _ in 0..(1 + rng.below(3)) {
             acts.push(new_value(rng));
         }
+        if rng.chance(1, 20_000) {
+            // rarely: buffers of some kilobytes, sizes around block sizes, then sub-ranges that
+            // start or end a few bits inside them (size thresholds in the byte-wise fast paths)
+            let nb = *rng.pick(&[4096usize, 8192, 4097, 12288, 65536]);
+            acts.push(Act::NewPattern(nb + rng.below(3)));
+            let at = acts.len() - 1;
+            for _ in 0..(1 + rng.below(4)) {
+                acts.push(Act::Trim(at, *rng.pick(&[0usize, 0, 8, 3, 16]) + 8 * rng.below(3), rng.below(17)));
+                acts.push(Act::Observe(acts.len() - 1));
+            }
+        }
         for _ in 0..n {
             let take = rng.chance(take_rate, 4);
             let i = rng.below(16);
@@ -564,7 +636,8 @@ impl Engine for Bitshare {
                 20..=21 => Act::Insert(i, k, j, take),
                 22..=23 => Act::Invert(i, take),
                 24 => Act::Detach(i, take),
-                25..=26 => Act::Eq(i, j),
+                25 => Act::Eq(i, j),
+                26 => Act::EqNear(i, if rng.chance(1, 4) { 0 } else { 1 + rng.small(12) }),
                 _ => Act::Observe(i),
             };
             acts.push(a);
@@ -622,6 +695,9 @@ impl Engine for Bitshare {
             .iter()
             .map(|a| match a {
                 Act::NewBytes(b) => crate::jobj! {"op" => "new_bytes", "hex" => hex_encode(b)},
+                Act::NewPattern(nb) => crate::jobj! {"op" => "new_pattern", "bytes" => *nb},
+                Act::Trim(i, a, b) => crate::jobj! {"op" => "trim", "i" => *i, "a" => *a, "b" => *b},
+                Act::EqNear(i, k) => crate::jobj! {"op" => "eq_near", "i" => *i, "k" => *k},
                 Act::NewStatic(i) => crate::jobj! {"op" => "new_static", "i" => *i},
                 Act::NewHex(s) => crate::jobj! {"op" => "new_hex", "s" => s.clone()},
                 Act::NewBits(b) => crate::jobj! {"op" => "new_bits", "s" => show(b)},
@@ -651,6 +727,9 @@ impl Engine for Bitshare {
             let u = |k: &str| a.f_usize(k);
             acts.push(match op.as_str() {
                 "new_bytes" => Act::NewBytes(hex_decode(&a.f_str("hex")?)?),
+                "new_pattern" => Act::NewPattern(u("bytes")?),
+                "trim" => Act::Trim(u("i")?, u("a")?, u("b")?),
+                "eq_near" => Act::EqNear(u("i")?, u("k")?),
                 "new_static" => Act::NewStatic(u("i")?),
                 "new_hex" => Act::NewHex(a.f_str("s")?),
                 "new_bits" => Act::NewBits(a.f_str("s")?.chars().map(|c| c == '1').collect()),
